@@ -167,7 +167,15 @@ func compareWithModel(r *rec, api string, orig, red map[string]interface{}) *hx.
 	// nothing may be invented
 	for _, k := range obs.Top {
 		if _, ok := orig[k]; !ok {
-			return fail("C05/top/"+strings.ToLower(k)+":invented",
+			// the open finding is exactly: the original spells this key with other letter case; anything else that
+			// appears from nowhere is keyed differently (and is not covered by the finding)
+			how := "invented"
+			for ok := range orig {
+				if ok != k && strings.EqualFold(ok, k) {
+					how = "case-variant-promoted"
+				}
+			}
+			return fail("C05/top/"+strings.ToLower(k)+":"+how,
 				fmt.Sprintf("%s (room version %s): the redacted event has the top-level key %q which the original event %v does not have",
 					api, r.Ver, k, keysOf(orig)), keysOf(orig), obs.Top)
 		}
